@@ -80,6 +80,7 @@ import (
 	"fmt"
 	"io"
 	"log"
+	"math"
 	"net/http"
 	"net/url"
 	"sort"
@@ -142,6 +143,26 @@ func c09Times() []c09Time {
 		c09Time{"lifetime=604800,middle", 302400, 302400, 0},
 		c09Time{"lifetime=604801,middle", 302400, 302401, 0},
 		c09Time{"lifetime=0,t=date=expires", 0, 0, 0},
+	)
+	// extreme absolute values of the date / expires parameters themselves (every one of them a reject: t is outside the
+	// window or the window is longer than 7 days).  time.Unix wraps for seconds above MaxInt64-62135596800, and
+	// expires-date wraps in int64 when the two have opposite signs and large magnitudes: a check written with plain
+	// int64 arithmetic or with wrapped time.Time values turns these into accepts.  d and x are stored modulo 2^64
+	// (c09T0-d and c09T0+x give the absolute values back exactly).
+	const maxI, minI, internal = int64(math.MaxInt64), int64(math.MinInt64), int64(62135596800)
+	abs := func(name string, date, expires int64) c09Time {
+		return c09Time{name, c09T0 - date, expires - c09T0, 0}
+	}
+	out = append(out,
+		abs("date=MaxInt64,expires=t+1000", maxI, c09T0+1000),
+		abs("date=first second time.Unix wraps at,expires=t+1000", maxI-internal+1, c09T0+1000),
+		abs("date=last second time.Unix represents,expires=t+1000", maxI-internal, c09T0+1000),
+		abs("date=MaxInt64,expires=MaxInt64", maxI, maxI),
+		abs("date=t-1000,expires=MaxInt64", c09T0-1000, maxI),
+		abs("date=MinInt64,expires=t+1000", minI, c09T0+1000),
+		abs("date=-2^62,expires=t+1000", -(1<<62), c09T0+1000),
+		abs("date=-1000,expires=MaxInt64", -1000, maxI),
+		abs("date=MinInt64,expires=MaxInt64", minI, maxI),
 	)
 	// de-duplicate by (d, x, nsec), keep first
 	seen := map[[3]int64]bool{}
